@@ -357,6 +357,178 @@ def solved_relations(tdgl, args, tmp):
     return {"rel": rel, "nsites": len(dev.mesh.sites), "frames": len(sol.times), "u": u}
 
 
+# ---------------------------------------------------------------------------------------------------------------------
+# The closed-form loop potential against numerical quadrature (clause LoopMatchesQuadrature of spec/FieldKernels.tla).
+#
+#   A(r) = mu0 I / 4 pi  *  G(r),      G(r) = \oint dl' / |r - r'|      (dimensionless: a length over a length)
+#
+# The reference is the harness' own quadrature of G from the NUMBERS IT PASSED IN (points, centre, radius in the caller's
+# length unit; the current through a literal SI prefix table; mu0/4pi literal).  Regimes: "on_axis" (rho = 0, G = 0 by
+# symmetry), "near_axis" (rho / R = 10^rexp, rexp = -9 .. -3), "far_field" (|r - c| / R = 10^rexp >= 200), "generic".
+MU0_OVER_4PI = 1e-7        # T m / A.  Literal (exact before 2019; CODATA 2018 / 2022 differ from it by 5.5e-10 / 1.3e-10 relative,
+#                            four orders below the tolerance); deliberately not read from scipy or from the package.
+LEN_SI = {"m": 1.0, "mm": 1e-3, "um": 1e-6, "nm": 1e-9}
+CUR_SI = {"A": 1.0, "mA": 1e-3, "uA": 1e-6, "nA": 1e-9}
+LOOPQ_Q = 10 ** 9                    # values are quantised to 1e-9 of the point's scale ...
+LOOPQ_SENTINEL = 1_100_000_000       # ... NaN / inf / beyond +-1.1 scale is clipped here (|a - b| stays below 2^31 for TLC)
+LOOPQ_RHO_MIN = 1e-8                 # see loop_scale
+LOOP_REGIMES = ("on_axis", "near_axis", "far_field", "generic")
+# loops of the family: radius R, centre c (caller's length unit), current I (caller's current unit), the unit names
+LOOP_FAMILY = [
+    dict(tag="R=1 at the origin [um,uA]", R=1.0, c=[0.0, 0.0, 0.0], I=1.0, ln="um", cu="uA"),
+    dict(tag="R=1.3 centre (1.7,-0.9,0.3) [um,uA]", R=1.3, c=[1.7, -0.9, 0.3], I=2.0, ln="um", cu="uA"),
+    dict(tag="R=350 centre (-420,130,60) I<0 [nm,mA]", R=350.0, c=[-420.0, 130.0, 60.0], I=-2.5e-3, ln="nm", cu="mA"),
+    dict(tag="R=0.02 centre (0.01,0.03,-0.5) [mm,A]", R=0.02, c=[0.01, 0.03, -0.5], I=0.125, ln="mm", cu="A"),
+]
+LOOP_FAMILY_THOROUGH = [
+    dict(tag="R=7.5 centre (0,-3,0) [um,mA]", R=7.5, c=[0.0, -3.0, 0.0], I=-0.4, ln="um", cu="mA"),
+    dict(tag="R=0.05 centre (2.5,2.5,1) [um,nA]", R=0.05, c=[2.5, 2.5, 1.0], I=30.0, ln="um", cu="nA"),
+]
+
+
+def ref_loop_G(np, d, R, n=2048):
+    """G = \\oint dl'/|r - r'| of a loop of radius R about the z axis through the origin, at the points d (k, 3) (same length
+    unit as R) -> (k, 3).  Midpoint rule in the source angle (periodic analytic integrand: geometric convergence away from the
+    wire), evaluated WITHOUT the cancellation that the plain sum suffers near the axis: with D = rho^2 + R^2 + z^2 and
+    e = 2 R rho cos(phi),  1/sqrt(D - e) = 1/sqrt(D) + e / (sqrt(D) sqrt(D - e) (sqrt(D) + sqrt(D - e))), and the first term
+    integrates to zero against cos(phi) exactly; what is left is a sum of non-negative terms:
+        (Gx, Gy) = 2 R^2 (-y, x) \\int_0^{2 pi} cos^2(phi) / (sqrt(D) sqrt(D - e) (sqrt(D) + sqrt(D - e))) dphi,   Gz = 0.
+    Exactly zero on the axis.  No tdgl code."""
+    d = np.asarray(d, dtype=float).reshape(-1, 3)
+    phi = (np.arange(n) + 0.5) * (2 * np.pi / n)
+    cph = np.cos(phi)
+    out = np.zeros_like(d)
+    for i, (x, y, z) in enumerate(d):
+        rho = math.hypot(x, y)
+        D = rho * rho + R * R + z * z
+        sD = math.sqrt(D)
+        sDe = np.sqrt(D - 2 * R * rho * cph)
+        J = float(np.sum(cph * cph / (sD * sDe * (sD + sDe)))) * (2 * np.pi / n)
+        out[i, 0] = -2 * R * R * J * y
+        out[i, 1] = 2 * R * R * J * x
+    return out
+
+
+def ref_loop_G_plain(np, d, R, n=2048):
+    """The same integral as the plain Cartesian sum  sum_j dl_j / |r - r'_j|  (loses ~1e-16 / (rho/R) relative near the axis;
+    used only to cross-check ref_loop_G where both are accurate)."""
+    d = np.asarray(d, dtype=float).reshape(-1, 3)
+    phi = (np.arange(n) + 0.5) * (2 * np.pi / n)
+    src = np.stack([R * np.cos(phi), R * np.sin(phi), np.zeros(n)], axis=1)
+    dl = np.stack([-R * np.sin(phi), R * np.cos(phi), np.zeros(n)], axis=1) * (2 * np.pi / n)
+    out = np.zeros_like(d)
+    for i, p in enumerate(d):
+        out[i] = (dl / np.linalg.norm(p[None, :] - src, axis=1)[:, None]).sum(axis=0)
+    return out
+
+
+def loop_scale(np, d, P, c, R, G):
+    """The scale against which a point is compared (tolerance = 1e-6 of it): the size of the reference value itself, but not
+    less than the potential ONE HUNDRED-MILLIONTH of the coordinates' magnitude away from the axis,
+        floor = pi R^2 rho_min / (R^2 + |d|^2)^(3/2),   rho_min = 1e-8 (|P|_inf + |c|_inf + R)
+    (pi R^2 rho / (R^2 + |d|^2)^(3/2) is the leading behaviour of |G| both near the axis and in the far field; it is the
+    absolute floor, in units of the loop's characteristic potential mu0 I / 4 pi, that the vanishing of A on the axis makes
+    necessary).  Reason: the points and the centre are floating-point numbers in the caller's unit; converting them to metres
+    and subtracting the centre moves the point by a few ulp (1e-16) of those magnitudes, so nobody can know rho better than
+    that; the floor tolerates 1e-6 * rho_min = 1e-14 of the magnitudes (~ 50 ulp) and nothing more."""
+    mag = np.abs(P).max(axis=1) + np.abs(np.asarray(c)).max() + R
+    floor = np.pi * R * R * LOOPQ_RHO_MIN * mag / (R * R + np.sum(d * d, axis=1)) ** 1.5
+    return np.maximum(np.abs(G).max(axis=1), floor)
+
+
+def _loop_points(np, regime, rexp, R, dense):
+    """Points RELATIVE to the loop centre (caller's length unit) of one regime.  Every point is >= 0.2 R from the wire."""
+    heights = [0.0, 0.25, 1.0, -3.0, 40.0] + ([0.01, -0.5, 2.0, 10.0, -100.0, 1000.0] if dense else [])         # z / R
+    az = [0.0, 2.1, -0.5 * math.pi] + ([0.5 * math.pi, math.pi, 0.3, -2.7, 4.0] if dense else [])
+    unit = lambda a: (0.0, -1.0) if a == -0.5 * math.pi else (0.0, 1.0) if a == 0.5 * math.pi else (-1.0, 0.0) if a == math.pi else (math.cos(a), math.sin(a))
+    pts = []
+    if regime == "on_axis":                       # includes the loop centre (z = 0)
+        pts = [[0.0, 0.0, h * R] for h in heights]
+    elif regime == "near_axis":
+        for mant in ([1.0, 3.0] if dense else [1.0]):
+            rho = mant * 10.0 ** rexp * R
+            pts += [[rho * unit(a)[0], rho * unit(a)[1], h * R] for h in heights for a in az]
+    elif regime == "far_field":
+        dist = 10.0 ** rexp * R * (2.0 if rexp == 2 else 1.0)             # 200 R, 1e3 R, 1e4 R, ...
+        for th in [0.3, 0.5 * math.pi, 2.5, 1e-3] + ([1.0, 3.0, 1e-5] if dense else []):       # polar angle from the loop axis
+            for a in az[:2]:
+                pts.append([dist * math.sin(th) * unit(a)[0], dist * math.sin(th) * unit(a)[1], dist * math.cos(th) if th != 0.5 * math.pi else 0.0])
+    else:
+        for rr in [0.3, 0.7, 1.6, 4.0] + ([0.05, 1.25, 12.0] if dense else []):
+            for h in [0.25, -1.0, 3.0] + ([0.0, 0.6] if dense else []):
+                if math.hypot(rr - 1.0, h) >= 0.2:
+                    pts += [[rr * R * unit(a)[0], rr * R * unit(a)[1], h * R] for a in az[:2]]
+    return np.array(pts, dtype=float)
+
+
+def loop_quadrature(tdgl, args, tmp):
+    """Evaluate the REAL closed form (em.current_loop_vector_potential, and the sources.CurrentLoop Parameter on two loops)
+    on the family  loops x regimes  and quantise it and the harness' quadrature point by point.
+    -> {"groups": [{"regime", "rexp", "events": [event + meta]}], "selfcheck": ...}; one group becomes one trace."""
+    import warnings
+
+    import numpy as np
+    from tdgl.em import current_loop_vector_potential
+    from tdgl.sources import CurrentLoop
+
+    dense = bool(args.get("dense", False))
+    loops = LOOP_FAMILY + (LOOP_FAMILY_THOROUGH if dense else [])
+    regimes = [("on_axis", 0)] + [("near_axis", k) for k in range(-12 if dense else -9, -2)] + [("generic", 0)] + \
+              [("far_field", k) for k in range(2, 8 if dense else 7)]
+    # ---- the reference checks itself where both of its forms are accurate (a harness problem, never a verdict)
+    gen = _loop_points(np, "generic", 0, 1.3, True)
+    g1, g2, g3 = ref_loop_G(np, gen, 1.3), ref_loop_G_plain(np, gen, 1.3), ref_loop_G(np, gen, 1.3, n=4096)
+    worst_self = float(max(np.abs(g1 - g2).max(), np.abs(g1 - g3).max()) / np.abs(g1).max())
+    far = _loop_points(np, "far_field", 3, 1.3, False)
+    dip = np.pi * 1.3 ** 2 * np.stack([-far[:, 1], far[:, 0], 0 * far[:, 0]], axis=1) / np.sum(far * far, axis=1)[:, None] ** 1.5     # the dipole limit
+    worst_dip = float(np.abs(ref_loop_G(np, far, 1.3) - dip).max() / np.abs(dip).max())
+    if not (worst_self < 1e-12 and worst_dip < 1e-5 and np.all(ref_loop_G(np, [[0, 0, 0.4], [0, 0, 0]], 1.3) == 0)):
+        raise RuntimeError(f"harness: the loop quadrature disagrees with itself (two forms / refinement {worst_self:.2e}, dipole limit {worst_dip:.2e})")
+    groups = []
+    for regime, rexp in regimes:
+        events = []
+        for li, L in enumerate(loops):
+            R, c, I = L["R"], np.array(L["c"], dtype=float), L["I"]
+            d0 = _loop_points(np, regime, rexp, R, dense)
+            P = d0 + c                                   # the numbers that are passed in
+            d = P - c                                    # what the package is told, relative to the centre it is told
+            G = ref_loop_G(np, d, R) * (1.0 if I > 0 else -1.0)
+            scale = loop_scale(np, d, P, c, R, G)
+            amp = MU0_OVER_4PI * abs(I) * CUR_SI[L["cu"]]           # mu0 |I| / 4 pi in T m
+            apis = ["function"] + (["CurrentLoop"] if li in (1, 2) and (regime != "near_axis" or rexp in (-9, -6, -3)) else [])
+            for api in apis:
+                raised = None
+                with warnings.catch_warnings():
+                    warnings.simplefilter("ignore")
+                    try:
+                        if api == "function":
+                            A = current_loop_vector_potential(P, loop_center=tuple(L["c"]), loop_radius=R, current=I, length_units=L["ln"], current_units=L["cu"])
+                            A = np.asarray(A.to("T * m").magnitude, dtype=float).reshape(-1, 3)
+                        else:
+                            prm = CurrentLoop(current=I, radius=R, center=tuple(L["c"]), current_units=L["cu"], field_units="mT", length_units=L["ln"])
+                            A = np.asarray(prm(P[:, 0], P[:, 1], P[:, 2]), dtype=float).reshape(-1, 3) * 1e-3 * LEN_SI[L["ln"]]
+                        if A.shape != G.shape:
+                            raise ValueError(f"returned shape {A.shape} for {G.shape[0]} points")
+                    except Exception as e:            # valid input: a refusal is an observation that no action accepts
+                        raised = f"{type(e).__name__}: {e}"[:200]
+                        A = np.full(G.shape, np.nan)
+                Gp = A / amp
+                bad = ~np.isfinite(Gp)
+                qa = np.where(bad, float(LOOPQ_SENTINEL), np.clip(np.round(np.where(bad, 0.0, Gp) / scale[:, None] * LOOPQ_Q), -LOOPQ_SENTINEL, LOOPQ_SENTINEL))
+                qb = np.round(G / scale[:, None] * LOOPQ_Q)
+                dev = np.where(bad, np.inf, np.abs(np.where(bad, 0.0, Gp) - G) / scale[:, None]).max(axis=1)
+                w = int(np.argmax(dev))
+                events.append({"ev": "loopq", "regime": regime, "rexp": int(rexp), "nonfinite": int(bad.sum()),
+                               "a": [int(v) for v in qa.reshape(-1)], "b": [int(v) for v in qb.reshape(-1)],
+                               "meta": {"loop": L["tag"], "api": api, "points": int(len(P)), "raised": raised,
+                                        "nonfinite_points": [P[i].tolist() for i in np.nonzero(bad.any(axis=1))[0][:3]],
+                                        "worst": {"point": P[w].tolist(), "rho_over_R": float(math.hypot(d[w, 0], d[w, 1]) / R), "z_over_R": float(d[w, 2] / R),
+                                                  "package_T_m": A[w].tolist(), "quadrature_T_m": (G[w] * amp).tolist(),
+                                                  "deviation_over_scale": float(dev[w]), "scale_over_mu0I_4pi": float(scale[w])}}})
+        groups.append({"regime": regime, "rexp": int(rexp), "events": events})
+    return {"groups": groups, "selfcheck": {"two_forms_and_refinement": worst_self, "dipole_limit": worst_dip}}
+
+
 def time_dependent_relations(tdgl, args, tmp):
     """A device solved with a time-dependent applied potential (ConstantField * LinearRamp) and save_every = k: at several solve
     steps the applied part of vector_potential_at_position must be the Parameter evaluated at THAT frame's recorded time."""
